@@ -513,6 +513,8 @@ Proof.
     unfold new_view. apply wf_add_view; auto.
     + rewrite !pick_length; auto.
     + apply incl_pick; auto.
+  - (* ODeepCopy *)
+    destruct (is_live st i) eqn:L; simpl; auto. apply is_live_lt in L. apply wf_add_clone; auto.
   - (* OExtendBad *)
     destruct (is_live st i) eqn:L; simpl; auto. apply is_live_lt in L.
     destruct pre.
